@@ -225,14 +225,28 @@ func (w *nodeWorld) nodeOptions() (string, []Option) {
 	if p.kb("seen_last") {
 		opts = append(opts, WithSeenMessagesStrategy(timecache.Strategy_LastSeen))
 	}
-	switch p.ks("sign", "strict") {
-	case "strict":
-	case "strictnosign":
-		opts = append(opts, WithMessageSignaturePolicy(StrictNoSign))
-	case "laxsign":
-		opts = append(opts, WithMessageSignaturePolicy(LaxSign))
-	case "laxnosign":
-		opts = append(opts, WithMessageSignaturePolicy(LaxNoSign))
+	if p.ks("sign_via", "") == "legacy" {
+		// the same four policies through the deprecated (still supported) pair of switches
+		switch p.ks("sign", "strict") {
+		case "strict":
+			opts = append(opts, WithMessageSigning(true), WithStrictSignatureVerification(true))
+		case "strictnosign":
+			opts = append(opts, WithMessageSigning(false))
+		case "laxsign":
+			opts = append(opts, WithStrictSignatureVerification(false))
+		case "laxnosign":
+			opts = append(opts, WithStrictSignatureVerification(false), WithMessageSigning(false))
+		}
+	} else {
+		switch p.ks("sign", "strict") {
+		case "strict":
+		case "strictnosign":
+			opts = append(opts, WithMessageSignaturePolicy(StrictNoSign))
+		case "laxsign":
+			opts = append(opts, WithMessageSignaturePolicy(LaxSign))
+		case "laxnosign":
+			opts = append(opts, WithMessageSignaturePolicy(LaxNoSign))
+		}
 	}
 	if v := p.ki("val_queue", 0); v > 0 {
 		opts = append(opts, WithValidateQueueSize(v))
